@@ -36,6 +36,8 @@ CLAIMS = {
          'Exploration: epochs of 1..64 goroutines allocating sizes that straddle chunk boundaries on one allocator, with Reset and TrimTo;Reset between epochs; all handed-out intervals are sorted and checked for overlap and every pattern is re-read. TrimTo is only issued immediately before Reset (the AllocatorPool protocol): using an allocator after TrimTo without Reset hands out freed memory by construction and is outside the statement.', '5/C12'),
  'C13': ('quiescent-point assertion monitor: white-box snapshot invariants (policy key set == map key set, used == sum) and IterValues multiset vs snapshot; empty-cache clause after delete-all / clear / expire-and-sweep; race-detector build',
          'Exploration: at every barrier (clients parked, Wait, applier paused by its own stop/done handshake) the snapshot taken under the cache\'s own locks must satisfy I1/I2 and IterValues must yield exactly the unexpired resident values once and stop when asked.', '5/C13'),
+ 'C14': ('directed schedule forcing through sweep hook points (the sweep is held after the bucket grab / before a key\'s check / after its conditional removal while a client re-writes or deletes the key), late-application schedules (insert waits in the write buffer until its bucket lies behind the frontier), stress with delays at the sweep points; oracles: per-value life-cycle attribution, bounded-progress restatement of "eventually", index-reachability invariant on white-box snapshots',
+         'Exploration: position x racing call x position of the key in its bucket (100 directed cases per round), about half of the late-application attempts reach the sweep-first ordering (observed, not forced: the applier\'s select is random), stress episodes attribute every sweep eviction to a write whose earliest possible expiration had passed. "Eventually removed" is decided as: removed, reported once and cost released once a sweep that started after the application has completed with a frontier beyond the entry\'s bucket and the frontier at application; plus: every stored TTL entry is indexed in a bucket the sweep will still visit.', '5/C14'),
  'C15': ('post-condition assertions after Clear/Close in gated sequential histories (model predicts exact callbacks), goroutine-profile monitor, bounded-return probes for calls on a closed cache',
          'Exploration: histories that leave resident entries, buffered new items, buffered updates, buffered tombstones, pending Wait markers (blocked helper goroutines) and TTL entries at the moment of Clear/Close (the number of items applied before the applier stops is observed, not predicted); after Clear: empty snapshot, RemainingCost == MaxCost, metrics zero, waiters released, new writes served; after Close: Set false, Get miss, Del/Wait/Clear/Close return, no processItems goroutine left, every held or buffered value released exactly once.', '5/C15'),
  'C16': ('C10 differential monitor carried across clean close + reopen of a persistent tree, Stats equality, recycled-page reuse assertion, checkptr build',
